@@ -44,24 +44,27 @@ Proof.
   lia.
 Qed.
 
-(* the same statements through four loaders *)
+(* the same statements through four loaders; literals (plain, language-tagged, typed) are covered for
+   N-Triples / N-Quads / Turtle; N3 joins for documents of its subset (no literals: finding C13-n3-literal-quoted) *)
 Lemma formats_agree4 : forall (doc : list item) (x : db),
-  wf_doc_nt doc = true -> wf_doc_n3 doc = true -> wf_doc_ttl doc = true ->
-  known_C13_reclean doc = false -> known_C13_n3 doc x = false -> db_ok x -> pref_ok (d_pref x) ->
+  wf_doc_nt doc = true -> wf_doc_ttl doc = true ->
+  known_C13_reclean doc = false -> db_ok x -> pref_ok (d_pref x) ->
   next_id (d_dict x) + 4 * N.of_nat (length doc) <= QBIT ->
   forall lq,
     (In lq (den (load_nt (render_doc doc) x)) <-> In lq (den (load_nq (render_doc doc) x))) /\
     (In lq (den (load_nt (render_doc doc) x)) <-> In lq (den (load_ttl (render_doc doc) x))) /\
-    (In lq (den (load_nt (render_doc doc) x)) <-> In lq (den (load_n3 (render_doc doc) x))).
+    (wf_doc_n3 doc = true -> known_C13_n3 doc x = false ->
+     (In lq (den (load_nt (render_doc doc) x)) <-> In lq (den (load_n3 (render_doc doc) x)))).
 Proof.
-  intros doc x Hnt Hn3 Httl Hr Hk Hx Hp Hb lq.
+  intros doc x Hnt Httl Hr Hx Hp Hb lq.
   pose proof (triples_le_doc doc Hnt) as Hl.
   assert (Hb' : next_id (d_dict x) + 4 * N.of_nat (length (triples_of doc)) <= QBIT) by lia.
   destruct (ntriples_1000 doc x Hnt Hr Hx Hb') as [_ A].
   destruct (nquads_main doc x (wf_nt_nq doc Hnt) Hr Hx Hb') as [_ B].
-  pose proof (n3_main doc x Hn3 Hk Hx) as C.
   assert (Hb2 : next_id (d_dict x) + 4 * N.of_nat (length (quads_from (d_pref x) doc)) <= QBIT)
     by (rewrite (quads_env_irrelevant doc (d_pref x) Hnt); exact Hb').
   destruct (ttl_main doc x Httl Hx Hp Hb2) as [_ D].
-  rewrite A, B, C, D. rewrite (quads_env_irrelevant doc (d_pref x) Hnt). repeat split; intro; assumption.
+  rewrite A, B, D. rewrite (quads_env_irrelevant doc (d_pref x) Hnt).
+  split; [reflexivity|]. split; [reflexivity|].
+  intros Hn3 Hk. rewrite (n3_main doc x Hn3 Hk Hx). reflexivity.
 Qed.
